@@ -8,12 +8,13 @@ import fmcbuild
 from checks import CHECKS, HARNESSES
 cap = float(sys.argv[1]) if len(sys.argv) > 1 else 150.0
 ids = sys.argv[2:] or sorted(CHECKS)
-out = {}
+out = json.load(open("/tmp/profile_thorough.json")) if os.path.exists("/tmp/profile_thorough.json") else {}
 outdir = "/tmp/profile_thorough_out"
 os.makedirs(outdir, exist_ok=True)
 libdir = fmcbuild.build_lib()
 for pid in ids:
     for idx, run in enumerate(CHECKS[pid]["thorough"]):
+        if "%s-%d" % (pid, idx) in out: continue
         h = HARNESSES[run["harness"]]
         exe = fmcbuild.build_harness(h.get("src", run["harness"]), h["kind"], libdir, extra_wraps=h.get("wraps", ()), lib_objs=h.get("objs"), defs=h.get("defs", ()), extra_srcs=h.get("extra_srcs", ()), link_flags=h.get("link_flags", ()), variant=h.get("variant", ""))
         jp = os.path.join(outdir, "%s-%d.json" % (pid, idx))
